@@ -362,6 +362,56 @@ def daemon_scenarios(prop):
                     "meta": {"family": "daemon", "sessions": sessions, "reset_before": reset_before}})
     return out
 
+def big_scenarios(prop):
+    """Sizes that cross the round numbers code likes to batch, buffer and cap by (1000, 1024): a policy with 1000 / 1100
+    ranges per family that appears, is replaced range by range (every installed range goes, as many new ones come),
+    shrinks to a handful and empties, next to a small policy; the last run is repeated."""
+    out = []
+    v4 = lambda ks: ["172.%d.%d.0/24" % (16 + (k >> 8), k & 0xff) for k in ks]          # under 172.16.0.0/12
+    import ipaddress
+    v6 = lambda ks: [str(ipaddress.ip_network("2001:db9:%x::/48" % k)) for k in ks]      # under 2001:db9::/36
+    for n in (1000, 1100):
+        even, odd = list(range(0, 2 * n, 2)), list(range(1, 2 * n, 2))
+        steps = [(v4(even), v6(even[: n // 2])), (v4(odd), v6(odd[: n // 2])), (v4(odd[:3]), []), ([], [])]
+        runs = []
+        for k, (p4, p6) in enumerate(steps + [steps[-1]]):
+            irr = Irr(); running = []; policies = {}
+            irr.n += 1
+            name, asn = f"AS-BIG{n}", f"AS{64600 + k}"
+            irr.db["as_sets"][name] = [asn]
+            irr.db["routes4"][asn] = p4; irr.db["routes6"][asn] = p6
+            running.append(stmt("big", f"/* bgpfu-fltr: {name} */"))
+            policies["big"] = {"sel": True, "marked": True, "eval": "ok", "v4": p4, "v6": p6, "expr": name, "why": f"{len(p4)}+{len(p6)} ranges"}
+            sexpr = irr.asset_with(["a"], ["c"])
+            running.append(stmt("small", f"/* bgpfu-fltr: {sexpr} */"))
+            policies["small"] = exp(True, True, "ok", ["a"], ["c"], sexpr, "next to the big one")
+            runs.append({"running": running, "irr": irr.db, "faults": [], "repeat": k == len(steps),
+                         "expect": {"prop": prop, "c16": False, "policies": policies}})
+        out.append({"case": f"{prop}-big{n}", "instance": "bgpfu", "eph0": [], "runs": runs, "meta": {"family": "big", "ranges_per_family": n}})
+    return out
+
+def daemon_twins(scenarios, every):
+    """Every `every`-th scenario once more in daemon mode: ONE agent process performs all its runs (the router's
+    running configuration, the IRR data and the router's faults change between the runs of that process) and then
+    the last run again with unchanged inputs.  Whatever the process carries over from one run to the next - caches,
+    remembered failures, remembered router state, credentials - must not change what a run does."""
+    out = []
+    for s in scenarios[::max(1, every)]:
+        if s.get("daemon") or s.get("target") == "local":
+            continue
+        if any(r.get("twin") or r.get("tamper") or r.get("style") or r.get("irr_mode", "ok") != "ok" for r in s["runs"]):
+            continue
+        t = json.loads(json.dumps(s))
+        last = json.loads(json.dumps(t["runs"][-1]))
+        # "unchanged inputs" only means something after a run that was not disturbed by the router
+        last["repeat"] = not last.get("faults"); last["faults"] = []
+        t["runs"].append(last)
+        t["case"] = s["case"] + "-D"
+        t["daemon"] = {"period": 1, "sessions": len(t["runs"]), "reset_before": []}
+        t["meta"] = dict(t.get("meta") or {}, mode="daemon")
+        out.append(t)
+    return out
+
 def tamper_scenarios(prop):
     """C02: the agent installs policies itself (run 1); then somebody changes the ephemeral instance by hand
     (run 2 starts from the tampered state) while the targets stay the same or change."""
